@@ -446,29 +446,53 @@ func TestC12(t *testing.T) {
 				abandoned++
 				conns[tx.Conn].close()
 				time.Sleep(5 * time.Millisecond)
-				hist = append(hist, fmt.Sprintf("c%d is reset by its client with %s pending; the backend answers %s with 200", tx.Conn, tx.ID, tx.ID))
+				hist = append(hist, fmt.Sprintf("c%d is reset by its client with %s pending; the backend answers %s with 180 and 200", tx.Conn, tx.ID, tx.ID))
 				V.Journal(t.Name()+"/histories", hist)
-				resp := buildResponse(tx.At.msg, 200, "Answer", "t"+tx.ID, "")
 				pv, err := rVia(tx.At.msg.Entries(hVia)[0])
 				if err != nil {
 					failf(rt, "top Via at the backend unreadable: %v", err)
 				}
 				ep := tx.At.ep
 				send := func(b []byte) error { return ep.sendUDP(pv.Host, pv.Port, b) }
-				s.in.expect(resp)
-				if err := send(resp); err != nil {
-					V.HarnessError(rt, "backend send: %v", err)
+				// Where the client said it can be reached - the sent-by of its Via, without
+				// rport - an element listens (the harness does, on ports 5060 and 6010 of
+				// the user agents' addresses): the responses that can no longer be written
+				// to the lost connection are delivered there over a new one, the
+				// provisional one like the final one.
+				sbHost, sbPort := splitHostPort(tx.SentBy)
+				if stamp {
+					sbHost = clientIP
 				}
-				rs, err := s.in.settle(send, 0)
-				if _, lost := err.(labLost); lost {
-					failf(rt, "%v\nhistory: %v", err, hist)
-				} else if err != nil {
-					V.HarnessError(rt, "%v", err)
-				}
-				for _, r := range labMessages(rs) {
-					for ci, c := range conns {
-						if r.tcp == c && ci != tx.Conn {
-							failf(rt, "the response to %s, whose connection c%d is gone, was written to another client's connection c%d\nhistory: %v", tx.ID, tx.Conn, ci, hist)
+				reachable := false // (delivery over a new connection is C20's promise: judged there, in lab-lost-connection)
+				_, _ = sbHost, sbPort
+				for _, code := range []int{180, 200} {
+					resp := buildResponse(tx.At.msg, code, "Answer", "t"+tx.ID, "")
+					s.in.expect(resp)
+					if err := send(resp); err != nil {
+						V.HarnessError(rt, "backend send: %v", err)
+					}
+					min := 0
+					if reachable {
+						min = 1
+					}
+					rs, err := s.in.settle(send, min)
+					if _, lost := err.(labLost); lost {
+						failf(rt, "%v\nhistory: %v", err, hist)
+					} else if err != nil {
+						V.HarnessError(rt, "%v", err)
+					}
+					got := labMessages(rs)
+					for _, r := range got {
+						for ci, c := range conns {
+							if r.tcp == c && ci != tx.Conn {
+								failf(rt, "the response to %s, whose connection c%d is gone, was written to another client's connection c%d\nhistory: %v", tx.ID, tx.Conn, ci, hist)
+							}
+						}
+					}
+					if reachable {
+						V.Class("responses for a lost connection delivered over a new one to the announced address")
+						if len(got) != 1 || got[0].tcp == nil || got[0].ep == nil || got[0].ep.ip != sbHost || got[0].ep.port != sbPort {
+							failf(rt, "the %d to %s can no longer be written to connection c%d (reset by the client); the client announced %s (no rport), where an element listens: the response must be delivered there, once, over a new connection; receptions:\n%shistory: %v", code, tx.ID, tx.Conn, tx.SentBy, labDescribe(got), hist)
 						}
 					}
 				}
@@ -499,7 +523,7 @@ func TestC12(t *testing.T) {
 				inv := cand[rapid.IntRange(0, len(cand)-1).Draw(rt, "which INVITE")]
 				inv.Cancel = true
 				wire := strings.Replace(strings.Replace(inv.Wire, "INVITE sip:", "CANCEL sip:", 1), "CSeq: 1 INVITE", "CSeq: 1 CANCEL", 1)
-				tx := &c12Txn{ID: inv.ID + "-cancel", Conn: inv.Conn, Method: "CANCEL", SentBy: inv.SentBy, CallID: inv.CallID, Wire: wire, Cancel: true}
+				tx := &c12Txn{ID: inv.ID + "-cancel", Conn: inv.Conn, Method: "CANCEL", SentBy: inv.SentBy, CallID: inv.CallID, Wire: wire, Cancel: true, Rport: inv.Rport}
 				c := conns[tx.Conn]
 				hist = append(hist, fmt.Sprintf("c%d sends CANCEL for %s (same branch)", tx.Conn, inv.ID))
 				V.Journal(t.Name()+"/histories", hist)
